@@ -30,7 +30,8 @@ PROP = 'C17'
 from . import lemmas as _lemmas
 LEMMAS = [_lemmas.PROTOCOL, _lemmas.SOLVE, _lemmas.INTBC]
 RULES = {'H1': 'dimensional homogeneity of every extracted expression', 'H2': 'result dimension as demanded by the role', 'H3': 'degree one in the coefficient field',
-         'H4': 'no literal threshold against dimensional quantities', 'H5': 'limiter arguments dimensionless'}
+         'H4': 'no literal threshold against dimensional quantities', 'H5': 'limiter arguments dimensionless',
+         'H6': 'tolerance predicates met while building are scale-invariant (no absolute tolerance against a dimensional quantity)'}
 ASSUMPTIONS = ['roles and dimensions from the README PDE and the property statement (DESIGN.md appendix B)',
                'the step from homogeneity of every coefficient to invariance of the solved values uses C04 (the solver solves the assembled system)']
 LENGTH_LABELS = {'x', 'y', 'z', 'r'}
@@ -198,7 +199,68 @@ def job(args):
     ci = sm.cls(cls)
     units.add(f"mesh.{cls}._getCellVolumes")
     check(w.vol_at(tuple(w.g)), (nlen, 0, 0, 0), f"mesh.{cls}._getCellVolumes", ci.loc(), 'cell volume')
+    _tolerance_predicates(sm, w, us, cls, ob)
     return dict(obs=obs, units=sorted(units), samples=samples)
+
+
+def _tolerance_predicates(sm, w, us, cls, ob):
+    """H6: every np.isclose / np.allclose evaluated by the code analysed in this job.  Its outcome selects a path (or a value),
+    so it must not change when the inputs are rescaled by their dimensions: an operand of non-zero dimension needs atol == 0
+    (rtol is relative and therefore scale-invariant).  The pinned tree has no tolerance predicate at all, so a positive example is
+    decided on every run (Grid1D job): np.allclose(DX, DX[0]) on the cell sizes must be found dimensional with numpy's default
+    atol."""
+    def enclosing(module, lineno):
+        best = None
+        for f in sm.all_functions():
+            if f.module == module and f.node.lineno <= lineno <= (f.node.end_lineno or f.node.lineno):
+                if best is None or f.node.lineno >= best.node.lineno:
+                    best = f
+        return best
+
+    def decide(ev):
+        _t, name, x, y, rtol, atol, module, lineno = ev[:8]
+        dims = []
+        for v in (x, y):
+            if v is None:
+                raise AnalysisError(f"np.{name} at {module}.py:{lineno}: operand not representable for the units domain")
+            if v.is_zero():
+                continue
+            try:
+                dims.append(us.rat_dim(v))
+            except Inhomogeneous as e:
+                return False, f"operand not homogeneous: {e.msg}"
+        dm = next((q for q in dims if q != ZERO4), ZERO4)
+        if dm == ZERO4 or atol.is_zero():
+            return True, f"operands of dimension {dfmt(dm)}, atol={fmt_rat(atol, 3)}"
+        return False, (f"compares quantities of dimension {dfmt(dm)} with the absolute tolerance atol={fmt_rat(atol, 3)}"
+                       f"{' (numpy default)' if atol == Rat.const(__import__('fractions').Fraction(1, 100000000)) else ''}: its outcome changes with the unit system")
+    seen = set()
+    for ev in list(w.interp.events):
+        if not (isinstance(ev, tuple) and ev and ev[0] == 'tolpred'):
+            continue
+        fi = enclosing(ev[6], ev[7])
+        where = f"{ev[6]}.{fi.qualname}" if fi is not None else f"{ev[6]}"
+        key = (where, ev[1], str(ev[5]))
+        if key in seen:
+            continue
+        seen.add(key)
+        ok, why = decide(ev)
+        from .. import interp as _I
+        used = ev[8] is not None and _I.JOB_FORK is not None and ev[8] in _I.JOB_FORK.decided_atoms
+        if not ok and not used:
+            # the predicate's outcome is stored or combined element-wise but no branch of the analysed code was decided on it:
+            # nothing the properties look at depends on it here (a recorded flag nobody reads); element-wise uses stay in the
+            # values and are judged by H1 there
+            ok, why = True, why + ' - but no branch of the analysed code is decided on it'
+        ob('H6', f"{where}/np.{ev[1]}[atol={fmt_rat(ev[5], 3)}]", ok, f"np.{ev[1]} at {ev[6]}.py:{ev[7]}: {why}", fi.loc() if fi is not None else '')
+    if cls == 'Grid1D':
+        n0 = len(w.interp.events)
+        w.interp.run_snippet('q = np.allclose(DX, DX[0])', dict(DX=w.mesh.attrs['cellsize'].attrs['_x']))
+        evs = [e for e in w.interp.events[n0:] if isinstance(e, tuple) and e and e[0] == 'tolpred']
+        del w.interp.events[n0:]
+        if len(evs) != 1 or decide(evs[0])[0]:
+            raise AnalysisError("H6 self-check: np.allclose(DX, DX[0]) on cell sizes was not recognised as an absolute tolerance against a length")
+        ob('H6', 'self-check/np.allclose(DX, DX[0])', True, 'positive example recognised: ' + decide(evs[0])[1])
 
 
 # ---------------------------------------------------------------------------------------------- H4
